@@ -72,6 +72,9 @@ Climb(ts, lhs, minp) ==
 Expr(ts, i, minp) == Climb(ts, Unary(ts, i), minp)
 Eval(ts) == LET r == Expr(ts, 1, 0) IN IF r.pos # Len(ts) + 1 THEN [r EXCEPT !.bad = "syntax"] ELSE r
 
+\* sizeof: size of the object or type in bytes (char 1, short/int 2, pointers 2, arrays: elements x element size)
+SizeOfType == [char |-> 1, short |-> 2, int |-> 2]
+SizeOfObject(kind, elemBytes, n) == IF kind = "scalar" THEN elemBytes ELSE IF kind = "pointer" THEN 2 ELSE n * elemBytes
 N(v) == [t |-> "n", v |-> v, form |-> "dec"]
 O(s) == [t |-> "op", s |-> s]
 ASSUME Eval(<<N(1), O("+"), N(2), O("*"), N(3)>>).v = 7
